@@ -65,6 +65,29 @@ def _keyseq(f, kinds):
         if kd is None:
             unknown.append(c.get("callee"))
             continue
+        if (c.get("callee") or "").startswith("ares_dns_rr_get_") and kinds is WKIND:
+            # a getter is a write only when what it returns reaches the output buffer; a value that is merely inspected (validated) is not
+            holder = None
+            for j in range(i + 1, len(b.els)):
+                e2 = b.els[j]
+                rr = None
+                if e2["k"] == "asg" and e2["e"]["op"] == "=":
+                    rr, nm = strip(e2["e"].get("r")), path(e2["e"]["l"])
+                elif e2["k"] == "decl":
+                    for v in e2["vars"]:
+                        if v.get("init") is not None and strip(v["init"]).get("k") == "call" and strip(v["init"]).get("id") == c.get("id"):
+                            rr, nm = strip(v["init"]), v["n"]
+                if rr is not None and rr.get("k") == "call" and rr.get("id") == c.get("id"):
+                    holder = nm
+                    break
+            if holder is not None:
+                feeds = False
+                for _, _, e3 in f.elements():
+                    if e3["k"] == "call" and ((e3["e"].get("callee") or "").startswith("ares_buf_append") or (e3["e"].get("callee") or "") in ("memcpy",)):
+                        if any(holder in [v["n"] for v in vars_in(a)] for a in e3["e"].get("args", []) if a):
+                            feeds = True
+                if not feeds:
+                    continue
         item = (ks[0], kd)
         if not seq or seq[-1] != item:
             seq.append(item)
@@ -689,3 +712,5 @@ def run(prog, R, tier):
     r_onewriter(prog, R)
     codecrules.r_limit(prog, R, "R-C03-LIMIT")
     codecrules.r_pure(prog, R, "R-C03-PURE")
+    codecrules.r_valid(prog, R, "R-C03-VALID")
+    codecrules.r_rcode(prog, R, "R-C03-RCODE")
